@@ -125,9 +125,6 @@ structure Mon where
   /-- requests in flight: their id and whether they were admitted by the remote limiter in force now (not rebuilt,
       not stopped since) -/
   held : List (Nat × Bool) := []
-  /-- requests admitted by a remote limiter were still running when it was (legitimately) rebuilt or stopped: the
-      in-flight clause is not applied any more (see notes: their Release goes into the NEW limiter) -/
-  tainted : Bool := false
   /-- token-bucket count wrapper: tokens of requests sent and not answered (what `tokenInflight` must be) -/
   owed : Int := 0
   deriving Repr, Inhabited
@@ -169,13 +166,20 @@ def rebuilds (m : Mon) (op : Op) : Bool :=
      decide ((match m.prev.remoteConfig with | some c => c.strategy | none => Strategy.empty) ≠ item.strategy))
   | _, _ => false
 
-/-- does this schema sync stop the remote wrapper (`stopRemoteWrapper`)? -/
+/-- does this schema sync stop the remote wrapper (`stopRemoteWrapper`)? when the schema's TYPE changes, or global
+    flow control is switched off -/
 def stopsRemote (m : Mon) : Op → Bool
   | .schema s =>
     match m.schema with
-    | some old => decide (s ≠ old) && decide (guessType s = guessType old) && !enableGlobal s
+    | some old => decide (s ≠ old) && (decide (guessType s ≠ guessType old) || !enableGlobal s)
     | none => false
   | _ => false
+
+/-- does this operation put a NEW limiter object (an empty bucket) into the remote wrapper? only an effective sync that
+    finds none — a changed limit or strategy keeps the limiter in force and the requests it counts -/
+def newBucket (m : Mon) (op : Op) : Bool :=
+  rebuilds m op && (decide (m.prev.wkind = 0) ||
+    (match syncItem m op with | some item => decide (m.prev.rlim.map (·.kind) ≠ some (itemType item)) | none => false))
 
 /-- may the counter's event flag be raised after `op`? (`event`, a request arriving or finishing: yes; a tick consumes
     it) -/
@@ -191,7 +195,7 @@ def Mon.next (m : Mon) (op : Op) (o : Obs) : Mon :=
   let synced' := match op with
     | .schema s =>
       match m.schema with
-      | some old => if s ≠ old ∧ guessType s = guessType old ∧ enableGlobal s = false then false else m.synced
+      | some old => if s ≠ old ∧ (guessType s ≠ guessType old ∨ enableGlobal s = false) then false else m.synced
       | none => m.synced
     | _ => m.synced || effective m op
   let gs' := if effective m op then (match m.schema with | some s => globalOf s | none => m.gs) else m.gs
@@ -223,14 +227,13 @@ def Mon.next (m : Mon) (op : Op) (o : Obs) : Mon :=
         (match syncItem m op, m.schema with | some item, some s => some (boundByGlobalLimit s item) | _, _ => m.applied)
       else m.applied
     held :=
-      if rebuilds m op || stopsRemote m op then m.held.map fun h => (h.1, false)
+      if newBucket m op || stopsRemote m op then m.held.map fun h => (h.1, false)
       else match op with
         | .acquire id =>
           if o.admitted = some true ∧ !(m.held.any (·.1 == id)) then (id, decide (m.prev.choice = .remote)) :: m.held
           else m.held
         | .release id => m.held.filter fun h => !(h.1 == id)
         | _ => m.held
-    tainted := m.tainted || ((rebuilds m op || stopsRemote m op) && m.held.any (·.2))
     owed :=
       if rebuilds m op || stopsRemote m op then 0
       else if m.prev.wkind = 3 then
@@ -360,7 +363,7 @@ def judgeDemand (m : Mon) (now : Int) (o : Obs) : List String :=
     because none of these may replace the bucket that counts them — are at most the bound in force -/
 def judgeAcquire (m : Mon) (id : Nat) (o : Obs) : List String :=
   let p := m.prev
-  if o.admitted = some true ∧ !(m.held.any (·.1 == id)) ∧ p.choice = .remote ∧ m.tainted = false ∧
+  if o.admitted = some true ∧ !(m.held.any (·.1 == id)) ∧ p.choice = .remote ∧
      isMI p.rlim = true ∧ ¬ ((m.held.countP (·.2) : Int) + 1 ≤ m.ob.mi)
   then ["c09.inflight-exceeds-global"] else []
 
